@@ -262,7 +262,8 @@ def write_evidence(prop, tier, seed, insts, errors, per_rule, model, wall, extra
             "only structural clauses are decided; value-level clauses are listed as undecided in DESIGN.md",
         ],
         "wall_s": round(wall, 3),
-        "violations": sum(1 for i in insts if i.verdict == BAD),
+        # (violations not listed in known_findings.json; the listed, still-present ones are in coverage.known_findings_present)
+        "violations": sum(1 for i in insts if i.verdict == BAD and i.key() not in set(known_hits)),
     }
     with open(os.path.join(ev_dir, f"{prop}.json"), "w") as fh:
         json.dump(ev, fh, indent=1)
